@@ -26,25 +26,18 @@ SUPERSEDED = {
 }
 
 EXPECT_MISSED = {
-    "C01-b": "get_isowk(): the ISO week-1 rule's constant arithmetic is off by a day for some years — a numerical result, no structural clause",
-    "C08-b": "first-occurrence comparison `f0 > d` boundary inside a filler's value arithmetic — value-level",
     "C09-a": "congruence bias of the INTERVAL alignment — a numerical result",
     "C09-b": "SHIFT clamp boundary — value-level",
-    "C18-a": "ilog10_ceil boundary `>=` vs `>` on exact powers of ten — a numerical result of a bit-trick function",
     # second generation
     "C05-c": "fdprintf flush boundary `>=` vs `>` at exactly 4096 bytes — a one-value boundary of a size computation",
-    "C08-d": "`f0 >= d` vs `f0 > d` in the epoch -> instant year correction — a boundary inside value arithmetic (same idea as C08-b)",
     "C09-c": "congruence pre-check of INTERVAL against BYMONTH relaxed — number theory of which months a step reaches",
-    "C18-e": "ilog10_ceil boundary (same idea as C18-a)",
     # third generation
     "C01-h": "skip-ahead in the MINUTELY filler: `M = 59 - (59 - M) % inter` keeps the INTERVAL phase only when INTERVAL divides 60 — an arithmetic identity",
     "C05-f": "fdprintf flush boundary `>=` vs `>` (same change as C05-c, found independently)",
     "C09-g": "congruence pre-check taken modulo gcd(INTERVAL, 6) instead of 12 — number theory of which months a step reaches (same area as C09-c)",
     "C15-g": "closed formula for the intercalary years whose constant comes out of a truncating division (type IV only) — a numerical result",
     "C17-g": "bias constant 384 -> 34 in the business-day arithmetic (both are -1 mod 5 and 7; the bias also keeps the sum non-negative) — value arithmetic",
-    "C18-g": "ilog2_ceil via __builtin_clz returns one less than the table version (bit length vs floor log2) — a numerical result of a bit-trick function",
     "C01-k": "MLY_TRIES bail-out after a leap year of fruitless minutes in the minutely filler — whether a rule's next match lies beyond the bound is a numerical question (the yearly and monthly fillers have such bounds in the unchanged tree)",
-    "C18-k": "ilog2_ceil via __builtin_clz (again, independently of C18-g) — a numerical result of a bit-trick function",
 }
 
 
